@@ -15,7 +15,8 @@ package main
 // Prices are compared exactly (they are selections); volumes are small integers, so their sums are
 // exact in float32, float64 and int32 alike and summation order cannot matter.
 //
-// Known-finding candidates (as-is model c24sim): F-AGGCACHE1, F-AGGCACHE2, F-AGGORDER.
+// Known-finding candidates: F-AGGCACHE1, F-AGGCACHE2, F-AGGORDER (as-is model c24sim) and, only when the
+// wrapper observed concurrent Fire calls for one bucket, F-AGGCONC (bounded as-is model in c24run).
 
 import (
 	"fmt"
@@ -58,40 +59,47 @@ func c24cases(tier string) int {
 type c24fireRec struct {
 	key    string  // bucket key "SYM/1Min/OHLCV"
 	epochs []int64 // record epochs in record order
+	ov     bool    // ran while another Fire call of this trigger was running
 }
 
 type c24trig struct {
-	inner   trigger.Trigger
-	mu      sync.Mutex
-	active  int
-	overlap bool
-	fires   []c24fireRec
-	done    int // records of completed Fire calls
-	panics  []string
+	inner  trigger.Trigger
+	mu     sync.Mutex
+	active map[int]bool // indexes into fires of the calls in progress
+	fires  []c24fireRec
+	done   int // records of completed Fire calls
+	panics []string
 }
 
 func (t *c24trig) Fire(keyPath string, records []trigger.Record) {
-	t.mu.Lock()
-	t.active++
-	if t.active > 1 {
-		t.overlap = true
+	fr := c24fireRec{}
+	el := strings.Split(keyPath, "/")
+	if len(el) == 4 {
+		fr.key = strings.Join(el[:3], "/")
+		if y, err := strconv.Atoi(strings.TrimSuffix(el[3], ".bin")); err == nil {
+			for i := range records {
+				fr.epochs = append(fr.epochs, io.IndexToTime(records[i].Index(), time.Minute, int16(y)).Unix())
+			}
+		}
 	}
+	t.mu.Lock()
+	idx := len(t.fires)
+	if len(t.active) > 0 {
+		fr.ov = true
+		for j := range t.active {
+			t.fires[j].ov = true
+		}
+	}
+	t.fires = append(t.fires, fr)
+	if t.active == nil {
+		t.active = map[int]bool{}
+	}
+	t.active[idx] = true
 	t.mu.Unlock()
 	defer func() {
 		r := recover()
-		fr := c24fireRec{}
-		el := strings.Split(keyPath, "/")
-		if len(el) == 4 {
-			fr.key = strings.Join(el[:3], "/")
-			if y, err := strconv.Atoi(strings.TrimSuffix(el[3], ".bin")); err == nil {
-				for i := range records {
-					fr.epochs = append(fr.epochs, io.IndexToTime(records[i].Index(), time.Minute, int16(y)).Unix())
-				}
-			}
-		}
 		t.mu.Lock()
-		t.active--
-		t.fires = append(t.fires, fr)
+		delete(t.active, idx)
 		t.done += len(records)
 		if r != nil {
 			t.panics = append(t.panics, fmt.Sprint(r))
@@ -101,10 +109,10 @@ func (t *c24trig) Fire(keyPath string, records []trigger.Record) {
 	t.inner.Fire(keyPath, records)
 }
 
-func (t *c24trig) snapshot() (done int, nfires int, overlap bool) {
+func (t *c24trig) snapshot() (done int, nfires int) {
 	t.mu.Lock()
 	defer t.mu.Unlock()
-	return t.done, len(t.fires), t.overlap
+	return t.done, len(t.fires)
 }
 
 // ---------------------------------------------------------------------------------------------
@@ -189,6 +197,9 @@ func c24gen(c *runner.Ctx) *c24case {
 		cs.stratum = "order"
 	default:
 		cs.stratum = "avoid"
+		if c.Case%16 == 4 {
+			cs.stratum = "conc" // same histories as "avoid", run with a WAL timer that cuts requests in two groups
+		}
 	}
 	cs.destSet = (c.Case / 8) % len(c24destSets)
 	for _, n := range c24destSets[cs.destSet] {
@@ -267,7 +278,11 @@ func c24gen(c *runner.Ctx) *c24case {
 				e = at(0, anchor) - 60
 			}
 			var out []c24bar
-			for i, n := 0, r.Range(1, 12); i < n; i++ {
+			n := r.Range(1, 12)
+			if cs.stratum == "conc" {
+				n = r.Range(30, 120) // long requests: more time for the WAL timer to cut them
+			}
+			for i := 0; i < n; i++ {
 				e += 60 * int64(r.PickI(1, 1, 1, 2, 3, 7))
 				out = append(out, c24newBar(r, e))
 			}
@@ -352,7 +367,7 @@ func c24gen(c *runner.Ctx) *c24case {
 
 	for q := 0; q < nreq; q++ {
 		si := r.Intn(nsym)
-		if cs.stratum != "avoid" && q <= aimAt && !cs.aimed {
+		if cs.stratum != "avoid" && cs.stratum != "conc" && q <= aimAt && !cs.aimed {
 			si = 0
 		}
 		g := gs[si]
@@ -361,7 +376,7 @@ func c24gen(c *runner.Ctx) *c24case {
 		if q < len(seeds) {
 			bars, kind = seeds[q], "seed"
 		}
-		if bars == nil && cs.stratum != "avoid" && q >= aimAt && !cs.aimed && g.sim.cache != nil {
+		if bars == nil && cs.stratum != "avoid" && cs.stratum != "conc" && q >= aimAt && !cs.aimed && g.sim.cache != nil {
 			bars, kind = c24aim(r, cs, g, ub), cs.stratum
 			if bars != nil {
 				cs.aimed = true
@@ -449,8 +464,12 @@ func c24aim(r *gen.R, cs *c24case, g *c24gsym, ub tfDef) []c24bar {
 		case "cache2": // new bars in the cached window and in a neighbouring upper-bound window that already has bars
 			w := int64(ub.d.Seconds())
 			var lo, hi int64
-			if r.Bool() { // starts in the window before the cached one
-				prev := existingIn(g, c.tail-w, c.tail-1)
+			prev, next := existingIn(g, c.tail-w, c.tail-1), existingIn(g, c.head+1, c.head+w)
+			startsBefore := r.Bool()
+			if (len(prev) > 0) != (len(next) > 0) {
+				startsBefore = len(prev) > 0 // the neighbour that already has bars: there the partial fold shows
+			}
+			if startsBefore { // starts in the window before the cached one
 				if len(prev) == 0 {
 					lo, hi = c.tail-30*60, c.tail-60
 				} else {
@@ -464,7 +483,6 @@ func c24aim(r *gen.R, cs *c24case, g *c24gsym, ub tfDef) []c24bar {
 				if len(es) > 0 {
 					bars = append(bars, unused(maxI64(c.tail, es[len(es)-1]-20*60), c.head-59, r.Range(1, 3))...)
 				}
-				next := existingIn(g, c.head+1, c.head+w)
 				if len(next) == 0 {
 					lo, hi = c.head+1, c.head+1+30*60
 				} else {
@@ -667,7 +685,16 @@ func c24run(c *runner.Ctx) (res runner.Result) {
 	}
 	trig := &c24trig{inner: inner}
 	matchers := []*trigger.Matcher{trigger.NewMatcher(trig, "*/1Min/OHLCV")}
-	inst := ms.Open(c.Scratch+"/data", ms.Opts{Triggers: matchers, WALRefresh: time.Second, PrimaryRefresh: time.Second,
+	// long WAL timer: a request is flushed by its own flush request; the timer could cut a request in two
+	// groups, i.e. two concurrent Fire calls for one bucket (handled below when it happens all the same)
+	walRefresh := 10 * time.Second
+	if cs.stratum == "conc" {
+		// aimed at F-AGGCONC: the timer fires every 200 us, so now and then it flushes the first rows of a
+		// request before the request's own flush: two groups, two concurrent Fire calls for one bucket
+		// (schedule-dependent: how often it happened is counted in requests_split_into_concurrent_fires)
+		walRefresh = 200 * time.Microsecond
+	}
+	inst := ms.Open(c.Scratch+"/data", ms.Opts{Triggers: matchers, WALRefresh: walRefresh, PrimaryRefresh: 2 * time.Second,
 		RotateInterval: 5, SetGlobalInstance: true})
 	time.Sleep(10 * time.Millisecond) // let the WAL goroutine announce itself before the first request
 	defer inst.Shutdown()
@@ -677,22 +704,30 @@ func c24run(c *runner.Ctx) (res runner.Result) {
 		sims    []*c24sim
 		alive   []bool
 		idealOK bool
-		first   string // first deviation from the reference model
+		firstAt int    // request index of the first deviation from the reference model
+		first   string // its description
 		firstW  interface{}
+		// concurrency: first request of this symbol that reached the trigger in several / overlapping Fire calls
+		taintAt   int
+		taintDesc string
+		ovWin     map[string]map[int64]bool // per destination: windows touched by requests from taintAt on
+		outside   string                    // a deviation after taintAt in a window not in ovWin
 	}
 	st := make([]*symState, nsym)
 	subsets := c24subsets()
 	for i := range st {
-		st[i] = &symState{idealOK: true}
+		st[i] = &symState{idealOK: true, firstAt: -1, taintAt: -1, ovWin: map[string]map[int64]bool{}}
 		for _, f := range subsets {
 			st[i].sims = append(st[i].sims, newC24sim(f, cs.dests))
 			st[i].alive = append(st[i].alive, true)
 		}
+		for _, d := range cs.dests {
+			st[i].ovWin[d.name] = map[int64]bool{}
+		}
 	}
 	written := 0
-	unclassifiable := ""
 	for qi, rq := range cs.reqs {
-		_, firesBefore, _ := trig.snapshot()
+		_, firesBefore := trig.snapshot()
 		if err := inst.Write(cs.baseKey(rq.Sym), cs.columnSeries(rq.Bars), false); err != nil {
 			res.Inconclusive(fmt.Sprintf("request %d rejected by the writer: %v", qi, err))
 			return res
@@ -700,12 +735,12 @@ func c24run(c *runner.Ctx) (res runner.Result) {
 		written += len(rq.Bars)
 		polls := 0
 		for {
-			if done, _, _ := trig.snapshot(); done >= written {
+			if done, _ := trig.snapshot(); done >= written {
 				break
 			}
 			polls++
 			if polls > c24maxPolls {
-				done, _, _ := trig.snapshot()
+				done, _ := trig.snapshot()
 				res.Inconclusive(fmt.Sprintf("request %d: trigger processed %d of %d written records after %d polls", qi, done, written, polls))
 				return res
 			}
@@ -719,31 +754,45 @@ func c24run(c *runner.Ctx) (res runner.Result) {
 		}
 		trig.mu.Lock()
 		fires := append([]c24fireRec{}, trig.fires[firesBefore:]...)
-		overlap := trig.overlap
 		panics := append([]string{}, trig.panics...)
 		trig.mu.Unlock()
 		res.Count("fire_calls", int64(len(fires)))
-		if len(fires) != 1 || overlap || len(fires[0].epochs) != len(rq.Bars) {
-			unclassifiable = fmt.Sprintf("request %d was delivered to the trigger in %d Fire calls (overlapping=%v)", qi, len(fires), overlap)
-		} else {
+		s := st[rq.Sym]
+		single := len(fires) == 1 && !fires[0].ov && len(fires[0].epochs) == len(rq.Bars) && fires[0].key == cs.baseKey(rq.Sym)
+		if single {
 			for i, e := range fires[0].epochs {
-				if e != rq.Bars[i].E || fires[0].key != cs.baseKey(rq.Sym) {
-					unclassifiable = fmt.Sprintf("request %d: the records handed to the trigger are not the request's rows in order", qi)
+				single = single && e == rq.Bars[i].E
+			}
+		}
+		if !single && s.taintAt < 0 {
+			ov := false
+			for _, f := range fires {
+				ov = ov || f.ov
+			}
+			s.taintAt = qi
+			s.taintDesc = fmt.Sprintf("request %d reached the trigger in %d Fire calls (overlapping: %v)", qi, len(fires), ov)
+			res.Count("requests_split_into_concurrent_fires", 1)
+		}
+		if s.taintAt >= 0 {
+			for _, d := range cs.dests {
+				for _, b := range rq.Bars {
+					s.ovWin[d.name][c24trunc(b.E, d)] = true
 				}
 			}
 		}
 
 		// observe
-		s := st[rq.Sym]
 		base, prob := c24queryBars(inst, cs.baseKey(rq.Sym))
 		if prob != "" {
 			res.Inconclusive(fmt.Sprintf("request %d: base bucket unreadable: %s", qi, prob))
 			return res
 		}
 		// as-is models see the request in record order and the base content of that moment
-		for k, sim := range s.sims {
-			if s.alive[k] {
-				sim.fire(rq.Bars, base)
+		if s.taintAt < 0 {
+			for k, sim := range s.sims {
+				if s.alive[k] {
+					sim.fire(rq.Bars, base)
+				}
 			}
 		}
 		for _, d := range cs.dests {
@@ -762,6 +811,7 @@ func c24run(c *runner.Ctx) (res runner.Result) {
 			okIdeal := prob == "" && !dup && c24sameDest(want, gotMap)
 			if !okIdeal && s.idealOK {
 				s.idealOK = false
+				s.firstAt = qi
 				diff := prob
 				if diff == "" {
 					diff = c24diff(want, got)
@@ -772,22 +822,57 @@ func c24run(c *runner.Ctx) (res runner.Result) {
 				}
 				s.firstW = c24witness(cs, rq.Sym, qi, d, base, want, got)
 			}
-			for k, sim := range s.sims {
-				if s.alive[k] && (prob != "" || dup || !c24sameDest(sim.dest[d.name], gotMap)) {
-					s.alive[k] = false
+			if s.taintAt < 0 {
+				for k, sim := range s.sims {
+					if s.alive[k] && (prob != "" || dup || !c24sameDest(sim.dest[d.name], gotMap)) {
+						s.alive[k] = false
+					}
+				}
+			} else if !okIdeal && s.outside == "" {
+				if prob != "" || dup {
+					s.outside = "destination " + d.name + " unreadable or with a window twice"
+				}
+				for e, w := range want {
+					if g, ok := gotMap[e]; (!ok || g != w) && !s.ovWin[d.name][e] {
+						s.outside = fmt.Sprintf("destination %s window %s", d.name, time.Unix(e, 0).UTC().Format("2006-01-02T15:04"))
+					}
+				}
+				for e := range gotMap {
+					if _, ok := want[e]; !ok && !s.ovWin[d.name][e] {
+						s.outside = fmt.Sprintf("destination %s extra window %s", d.name, time.Unix(e, 0).UTC().Format("2006-01-02T15:04"))
+					}
 				}
 			}
 		}
 	}
 	// verdict per symbol
+	why := map[string]string{
+		"F-AGGCACHE1": "a rewritten base bar inside the cached upper-bound window keeps its cached (old) values in the aggregates",
+		"F-AGGCACHE2": "a request that only overlaps the cached upper-bound window is aggregated from the cache plus its own bars: the other windows are folded from partial data",
+		"F-AGGORDER":  "for a request whose rows are not ascending the trigger takes its first/last record as earliest/latest bar: destination windows outside that range keep stale bars",
+	}
 	for si, s := range st {
 		if s.idealOK {
 			continue
 		}
-		if unclassifiable != "" {
-			res.Inconclusive(s.first + " [not classified: " + unclassifiable + "]")
+		if s.taintAt >= 0 && s.firstAt >= s.taintAt {
+			// as-is model F-AGGCONC. Trigger (measured by the wrapper): a request of this bucket was
+			// delivered in several Fire calls / a Fire call ran while another one was running (the
+			// dispatcher starts one goroutine per flushed group and file). Defective behaviour: the calls
+			// share the cache entry of the bucket and write the same destination windows without
+			// ordering, so a call that read the base data earlier can overwrite newer aggregates. The
+			// outcome depends on the schedule; the model only bounds it: every deviating window was
+			// touched by a request from the concurrent one on.
+			if s.outside == "" {
+				res.Known("F-AGGCONC", s.first+" ["+s.taintDesc+": concurrent Fire calls for one base bucket overwrite each other's aggregates; every deviating window was touched by that request or a later one]", s.firstW)
+				res.Count("known_F-AGGCONC", 1)
+			} else {
+				res.Violation(fmt.Sprintf("symbol %s: %s [%s, but %s deviates and was not touched since]", cs.syms[si], s.first, s.taintDesc, s.outside), s.firstW)
+			}
 			continue
 		}
+		// the first deviation precedes any concurrency: classify it with the as-is models (their state is
+		// the one before the concurrent request, if there was one)
 		classified := false
 		for k, f := range subsets {
 			if !s.alive[k] {
@@ -796,11 +881,6 @@ func c24run(c *runner.Ctx) (res runner.Result) {
 			dv := s.sims[k].div
 			if (f.c1 && !dv.c1) || (f.c2 && !dv.c2) || (f.ord && !dv.ord) {
 				continue // a switch whose trigger never held cannot explain anything
-			}
-			why := map[string]string{
-				"F-AGGCACHE1": "a rewritten base bar inside the cached upper-bound window keeps its cached (old) values in the aggregates",
-				"F-AGGCACHE2": "a request that only overlaps the cached upper-bound window is aggregated from the cache plus its own bars: the other windows are folded from partial data",
-				"F-AGGORDER":  "for a request whose rows are not ascending the trigger takes its first/last record as earliest/latest bar: destination windows outside that range keep stale bars",
 			}
 			for _, id := range []struct {
 				on bool
@@ -899,7 +979,7 @@ func init() {
 		Level: "exploration",
 		Rule: "case = (destination set out of 8, rotated; 1-2 symbols; price type float32/float64; volume type float32/float64/int32) and a history of 6-12 base-bar requests on 1Min OHLCV buckets over four consecutive days (anchored anywhere in a day, before midnight or at its start): appends in order with gaps crossing 5Min..1D windows, requests on another day, backfills before the latest bar, corrections of existing bars, corrections mixed with new bars, requests spanning several days; " +
 			"after every request the monitor waits until the trigger has processed as many records as were written, then compares every destination bucket with the fold of the base bucket's current content. " +
-			"Strata by case number mod 8: 0-4 avoid (every request is placed so that no known trigger holds: rewrites only outside the cached window, no request overlapping the cached window without lying inside it, rows ascending), 5 aims at F-AGGCACHE1, 6 at F-AGGCACHE2, 7 at F-AGGORDER (one aimed request per history). " +
+			"Strata by case number mod 8: 0-4 avoid (every request is placed so that no known trigger holds: rewrites only outside the cached window, no request overlapping the cached window without lying inside it, rows ascending), 5 aims at F-AGGCACHE1, 6 at F-AGGCACHE2, 7 at F-AGGORDER (one aimed request per history); every 16th case (mod 16 = 4) runs an avoid history (with appends of 30-120 bars) with a 200 us WAL timer so that requests get cut into two groups and the trigger fires concurrently for one bucket (F-AGGCONC, schedule-dependent). " +
 			"A case is non-trivial when at least one destination bar was compared; distinct by (stratum, destination set, price/volume types, symbols, set of request kinds)",
 		Assumptions: []string{
 			"filter \"\" (the nasdaq market-hours filter is not covered); UTC",
@@ -908,10 +988,10 @@ func init() {
 			"no two rows of one request share a minute",
 		},
 		Cases:        c24cases,
-		Batch:        6,
+		Batch:        4,
 		Run:          c24run,
 		Need:         []string{"requests", "fire_calls", "destination_bars_compared"},
-		BatchTimeout: 15 * time.Minute,
+		BatchTimeout: 45 * time.Minute,
 		MinDistinct:  10,
 	})
 }
